@@ -12,7 +12,7 @@ TITLE = "parallel specification finder: total, output a matched pair"
 COQ_PROPS = "Props/C13.v"
 COQ_RUN = ("Parallel.Run", "run_c13")
 GEN_TARGETS = []
-N = {"quick": 25000, "thorough": 120000}
+N = {"quick": 18000, "thorough": 100000}
 CASE_CPU_SECONDS = 90
 NMAX_COUNT = 8
 NMAX_BIJ = 6
@@ -20,6 +20,7 @@ NMAX_BIJ = 6
 KF_EMPTY = "empty-start-class-assertion-in-ParallelInfo"
 KF_SHORTCUT = "second-search-accepts-two-assigned-labels-without-matching-their-rules"
 KF_CHAIN = "returned-pair-with-chained-equivalence-steps-rejected-by-Isomorphism.check"
+KF_EQCHILD = "eqpath-finder-does-not-compare-equivalence-paths-of-children-of-two-assigned-labels"
 
 RULE = (
     "three streams. (word) pairs of REAL searchers over the word universes (24 start classes incl. two empty ones x "
@@ -33,10 +34,14 @@ RULE = (
     "exhaustion before find(). (abs) the REAL methods _find, _search_matching_info, _create_tree (both variants; "
     "for EqPath the real _eq_path_matches with its cache, over a stub extractor) run on random rule universes up to "
     "equivalence handed over in place of ParallelInfo: shapes no semantic universe reaches (dangling children, "
-    "atoms that also have rules, several constructors, unary non-equivalence rules). Model input = the two universes "
-    "read off the finder's ParallelInfo objects (+ the recorded _eq_path_matches answers); compared: nothing / found / "
-    "exception class, the two label maps (for real searchers read back from the RETURNED specifications through the "
-    "searchers' class and equivalence databases). Oracle, independent of the "
+    "atoms that also have rules, several constructors, unary non-equivalence rules). Model input for real searchers = "
+    "the two RULE DATABASES as ParallelInfo reads them (keys of rule_to_strategy in order with the constructor class of "
+    "each rule, representatives, emptiness and atom identity of every label, the order in which the pruned rules up to "
+    "equivalence were iterated) + the recorded _eq_path_matches answers: the model builds the universes itself "
+    "(ParallelInfo._construct_eq_label_rules) and runs the finder on them; for the synthetic stream the universes are "
+    "given. Compared: the universe each ParallelInfo built (or its refusal / exception), nothing / found / exception "
+    "class, the two label maps (for real searchers read back from the RETURNED specifications through the searchers' "
+    "class and equivalence databases). Oracle, independent of the "
     "model: no exception except the three documented refusals; each returned specification is rooted at its start "
     "class, closed, genuine, productive (naive Kleene iteration) and counts like brute force for n <= 8; the two are "
     "isomorphic (own greatest-fixed-point bisimulation up to equivalence steps AND Isomorphism.check both ways), "
@@ -49,8 +54,11 @@ TRUSTED = [
     "_search_matching_info/_search_matching_info_recursion_base_cases_eq/_validate_atoms_for_existing_entries and the "
     "cache of _eq_path_matches, tree_searcher.Node.rule_keys — Parallel/Model.v, tied by this correspondence; the "
     "explicit stack of _find is transcribed as the equivalent recursive depth-first search (Model.v header)",
-    "ParallelInfo (expansion of the searchers, pruning, choice of one concrete rule per rule up to equivalence) is not "
-    "modelled: the model starts from the two universes ParallelInfo built; Constructor.equiv and the (size, terms) "
+    "modelled, not verified: bijection.py ParallelInfo._construct_eq_label_rules/_pruned_rules_up_to_eq/"
+    "_get_class_and_rule with RuleDBBase.rules_up_to_equivalence, rule_from_equivalence_rule_dict and "
+    "tree_searcher.prune — Parallel/InfoModel.v, tied by this correspondence; the iteration order of the dict of sets "
+    "of pruned rules is replayed from the real run (the model recomputes the set and compares)",
+    "the expansion of the searchers (ParallelInfo._expand) is not modelled; Constructor.equiv and the (size, terms) "
     "comparison of atoms enter as equivalence-class numbers computed by the harness with the real functions",
     "answers of _eq_path_matches (EquivalenceRuleExtractor over the rule database) are replayed from the real run",
     "SpecificationRuleExtractor: model and theorem of C02 (Spec/Extractor.v), reused by C13_spec_from_label_map",
@@ -62,7 +70,10 @@ ASSUMPTIONS = [
     "the three explicit refusals raised by ParallelInfo (ValueError 'No specifications were found', ValueError 'Only "
     "atoms can be verified.', RuntimeError 'Only searcher supported rule db is `RuleDB`.') count as declining the "
     "input, not as failing on it",
-    "termination of the two searches is not proved (fuel); no run exceeded the CPU budget",
+    "C13_universe_well_formed / C13_two_rule_sets assume that verification rules have no children (atoms are "
+    "verified by AtomStrategy)",
+    "the EqPath theorems quantify over every oracle that answers all questions of _eq_path_matches; the real answers "
+    "come from EquivalenceRuleExtractor, outside the model",
 ]
 
 
@@ -273,63 +284,121 @@ def _finder_classes():
             miss = key not in cache[(id1, id2)][(pid1, pid2)]
             r = super()._eq_path_matches(id1, id2, pid1, pid2, idx1, idx2, sp1, sp2, cache)
             if miss:
-                self.rec_log.append([[id1, id2, pid1, pid2, list(key[0]), list(key[1])], bool(r)])
+                log = self.rec_log2 if getattr(self, "rec_walk", False) else self.rec_log
+                log.append([[id1, id2, pid1, pid2, list(key[0]), list(key[1])], bool(r)])
             return r
+
+        def _maps_are_matched(self, matching_info, sp1, sp2):
+            # with the proposed repair of F-C13e this walk asks _eq_path_matches again (fresh cache, final
+            # maps): those answers are recorded apart from the ones given during the search
+            self.rec_walk, self.rec_log2 = True, []
+            try:
+                return super()._maps_are_matched(matching_info, sp1, sp2)
+            finally:
+                self.rec_walk = False
 
     return RecBase, RecEq
 
 
-def _sides_of(finder):
-    """the two universes up to equivalence, read off the ParallelInfo objects, with rule kinds and atom
-    identities as equivalence-class numbers of the REAL comparison functions"""
-    from comb_spec_searcher.strategies.rule import Rule
+class _Classes:
+    """equivalence-class numbers of rule constructors (the library's Constructor.equiv, NOT the finder's
+    _rule_match, which is part of what is being checked) and of atom identities ((size, terms) equality),
+    shared by everything that describes one case to the model"""
 
-    reps = []
-    checks = []
+    def __init__(self):
+        self.reps = []
+        self.atom_reps = []
 
-    def kind(rule):
-        # the library's own comparison of constructors, NOT the finder's _rule_match (which is part of
-        # what is being checked)
+    def kind(self, rule):
+        from comb_spec_searcher.strategies.rule import Rule
+
         if not isinstance(rule, Rule):
             return -1
-        for i, r in enumerate(reps):
+        for i, r in enumerate(self.reps):
             if r.constructor.equiv(rule.constructor)[0]:
                 return i
-        reps.append(rule)
-        return len(reps) - 1
+        self.reps.append(rule)
+        return len(self.reps) - 1
 
-    atom_reps = []
-
-    def atom_id(v):
-        for i, a in enumerate(atom_reps):
+    def atom_id(self, v):
+        for i, a in enumerate(self.atom_reps):
             if a[0] == v[0] and a[1] == v[1]:
                 return i
-        atom_reps.append(v)
-        return len(atom_reps) - 1
+        self.atom_reps.append(v)
+        return len(self.atom_reps) - 1
 
-    sides = []
-    for pi in (finder._pi1, finder._pi2):  # pylint: disable=protected-access
-        rules = []
-        for l, d in list(pi.eq_label_rules.items()):
-            lst = []
-            for _, crs in list(d.items()):
-                for c, rule in crs:
-                    k = kind(rule)
-                    lst.append([list(c), k])
-                    checks.append((len(sides), len(c), k, rule))
-            rules.append([l, lst])
-        atoms = [[l, atom_id(v)] for l, v in pi.atom_map.items()]
-        sides.append([pi.root_eq_label, atoms, rules])
+
+def _side_of_pi(pi, cls, checks, which):
+    rules = []
+    for l, d in list(pi.eq_label_rules.items()):
+        lst = []
+        for _, crs in list(d.items()):
+            for c, rule in crs:
+                k = cls.kind(rule)
+                lst.append([list(c), k])
+                checks.append((which, len(c), k, rule))
+        rules.append([l, lst])
+    atoms = [[l, cls.atom_id(v)] for l, v in pi.atom_map.items()]
+    return [pi.root_eq_label, atoms, rules]
+
+
+def _kinds_bad(checks):
     # kind equality must reproduce Constructor.equiv on every pair the finder can ask about
-    bad = False
     left = [c for c in checks if c[0] == 0 and c[2] >= 0]
     right = [c for c in checks if c[0] == 1 and c[2] >= 0]
     if len(left) * len(right) <= 4000:
         for _, n1, k1, r1 in left:
             for _, n2, k2, r2 in right:
                 if n1 == n2 and bool(r1.constructor.equiv(r2.constructor)[0]) != (k1 == k2):
-                    bad = True
-    return sides, bad
+                    return True
+    return False
+
+
+def _sides_of(finder, cls=None):
+    """the two universes up to equivalence, read off the ParallelInfo objects, with rule kinds and atom
+    identities as equivalence-class numbers of the REAL comparison functions"""
+    cls = cls or _Classes()
+    checks = []
+    sides = [_side_of_pi(pi, cls, checks, i) for i, pi in enumerate((finder._pi1, finder._pi2))]  # pylint: disable=protected-access
+    return sides, _kinds_bad(checks)
+
+
+def _db_of(css, cls):
+    """what ParallelInfo._construct_eq_label_rules reads: the rule database (keys of rule_to_strategy in
+    dictionary order with the kind of the rule each strategy gives), the representatives, emptiness and atom
+    identity of every label, and the order in which the pruned rules up to equivalence are iterated"""
+    from comb_spec_searcher import bijection as B
+    from comb_spec_searcher.strategies.strategy import AtomStrategy
+
+    ruledb, classdb = css.ruledb, css.classdb
+    lis = [[k, list(c)] for k, c in B.ParallelInfo._pruned_rules_up_to_eq(SimpleNamespace(ruledb=ruledb))]  # pylint: disable=protected-access
+    n = len(classdb.comb_class_list)
+    reps = [ruledb.equivdb[l] for l in range(n)]
+    stored, ver = [], {}
+    for (par, children), strat in list(ruledb.rule_to_strategy.items()):
+        rule = strat(classdb.get_class(par))
+        k = cls.kind(rule)
+        stored.append([par, list(children), k])
+        if k < 0:
+            ver[par] = rule
+    info = []
+    for l in range(n):
+        c = classdb.get_class(l)
+        empty = bool(c.is_empty())
+        aid = -1
+        if not empty and c.is_atom():
+            sz = next(c.objects_of_size(c.minimum_size_of_object())).size()
+            rule = ver.get(l) or AtomStrategy()(c)
+            aid = cls.atom_id((sz, rule.get_terms(sz)))
+        info.append([int(empty), aid])
+    return [css.start_label, reps, info, stored], lis
+
+
+def _canon_side(side):
+    if not side:
+        return []
+    root, atoms, rules = side
+    return [root, sorted(atoms), sorted([l, rs] for l, rs in rules if rs)]
 
 
 def _labels_of(side):
@@ -346,11 +415,11 @@ def _fuel(sides):
     return (a + 1) * (b + 1) + a + b + 10
 
 
-_EXC_CODE = {"KeyError": 11, "IndexError": 12}
+_EXC_CODE = {"KeyError": 11, "IndexError": 12, "AssertionError": 13, "RuntimeError": 14}
 
 
-def _exc_out(e):
-    return [_EXC_CODE.get(type(e).__name__, 13), [], []]
+def _exc_code(e):
+    return _EXC_CODE.get(type(e).__name__, 15)
 
 
 def _make_searchers(case):
@@ -400,46 +469,116 @@ def _keys_from_spec(spec, css):
 REFUSALS = ("No specifications were found", "Only atoms can be verified.", "Only searcher supported rule db")
 
 
+def _parallel_info(css):
+    """ParallelInfo(css) as the finder's constructor builds it; returns (pi or None, outcome code, text, trace,
+    reached): outcome 0 built, 7 the documented refusal about verified non-atoms, 10+c an exception;
+    reached = the exception (if any) came from _construct_eq_label_rules, i.e. the rule database was read"""
+    from comb_spec_searcher import bijection as B
+
+    try:
+        return B.ParallelInfo(css), 0, None, None, True
+    except Exception as e:  # pylint: disable=broad-except
+        tr = traceback.format_exc()
+        reached = "_construct_eq_label_rules" in tr
+        text = "%s: %s" % (type(e).__name__, str(e)[:80])
+        if isinstance(e, ValueError) and "Only atoms can be verified." in str(e):
+            return None, 7, text, tr[-1200:], reached
+        return None, _exc_code(e), text, tr[-1200:], reached
+
+
 def _impl_real(case):
     RecBase, RecEq = _finder_classes()
     s1, s2 = _make_searchers(case)
     res = {"stage": "init", "sides": None, "log": [], "empty_start": [bool(s1.start_class.is_empty()),
                                                                      bool(s2.start_class.is_empty())]}
-    try:
-        finder = (RecEq if case["variant"] else RecBase)(s1, s2)
-    except Exception as e:  # pylint: disable=broad-except
+    # the two ParallelInfo objects, built one by one as the finder's constructor does (it stops at the
+    # first that fails; the harness looks at both)
+    infos = [_parallel_info(s1), _parallel_info(s2)]
+    first_bad = next((i for i in infos if i[1] != 0), None)
+    if first_bad is not None:
+        res["init_exception"] = first_bad[2]
+        res["refused"] = first_bad[1] == 7 or any(m in first_bad[2] for m in REFUSALS)
+        res["trace"] = first_bad[3]
+    if any(not i[4] for i in infos):
+        # a searcher without specification / another kind of rule database: the databases are not read
         res["out"] = [9]
-        res["init_exception"] = "%s: %s" % (type(e).__name__, str(e)[:80])
-        res["refused"] = isinstance(e, (ValueError, RuntimeError)) and any(m in str(e) for m in REFUSALS)
-        res["trace"] = traceback.format_exc()[-1200:]
+        return res
+    cls = _Classes()
+    res["dbs"] = [_db_of(s1, cls), _db_of(s2, cls)]
+    checks = []
+    built = [_side_of_pi(i[0], cls, checks, n) if i[0] is not None else [] for n, i in enumerate(infos)]
+    res["kind_bad"] = _kinds_bad(checks)
+    tail = [infos[0][1], _canon_side(built[0]), infos[1][1], _canon_side(built[1])]
+    res["start_labels"] = [s1.start_label, s2.start_label]
+    if first_bad is not None:
+        res["fuel"] = 10
+        res["out"] = [8, [], []] + tail
         return res
     res["stage"] = "find"
-    res["start_labels"] = [s1.start_label, s2.start_label]
-    res["sides"], res["kind_bad"] = _sides_of(finder)
+    finder = (RecEq if case["variant"] else RecBase)(s1, s2)
+    res["sides"], _ = _sides_of(finder, cls)
     res["fuel"] = _fuel(res["sides"])
     try:
         specs = finder.find()
     except Exception as e:  # pylint: disable=broad-except
-        res["out"] = _exc_out(e)
+        res["out"] = [_exc_code(e), [], []] + tail
         res["find_exception"] = "%s: %s" % (type(e).__name__, str(e)[:80])
         res["trace"] = traceback.format_exc()[-1800:]
         res["log"] = getattr(finder, "rec_log", [])
+        res["log2"] = getattr(finder, "rec_log2", [])
         return res
     res["log"] = getattr(finder, "rec_log", [])
+    res["log2"] = getattr(finder, "rec_log2", [])
     if specs is None:
-        res["out"] = [0, [], []]
+        res["out"] = [0, [], []] + tail
         return res
     sp1, sp2 = specs
     k1, c1 = _keys_from_spec(sp1, s1)
     k2, c2 = _keys_from_spec(sp2, s2)
-    res["out"] = [1, k1, k2]
+    res["out"] = [1, k1, k2] + tail
     res["key_conflict"] = c1 or c2
     res["maps"] = [sorted([k, list(v)] for k, v in m.items()) for m in finder.rec_maps]
     res["mi"] = _mi_json(finder.rec_mi)
     res["validity"] = [_validate_spec(sp1, s1), _validate_spec(sp2, s2)]
     res["iso"] = _iso_facts(sp1, sp2)
+    if case["variant"]:
+        res["bad_edges"] = _unvalidated_edges(finder)
     res["nlabels"] = [len(k1), len(k2)]
     return res
+
+
+def _unvalidated_edges(finder):
+    """(EqPath variant) walk the two returned label maps from the roots along the recorded child orders and
+    ask the finder's own _eq_path_matches (fresh cache) about every pair of children under the pair of parents
+    it is reached from; returns the edges that do NOT match and that the search never asked about"""
+    mi, (sp1, sp2) = finder.rec_mi, finder.rec_maps
+    asked = {tuple(k[:4]) for k, _ in getattr(finder, "rec_log", [])}
+    tracker = defaultdict(lambda: defaultdict(dict))
+    bad, seen = [], set()
+    stack = [((finder._pi1.root_eq_label, finder._pi2.root_eq_label), (-1, -1, -1, -1))]  # pylint: disable=protected-access
+    log = finder.rec_log
+    finder.rec_log = []
+    try:
+        while stack:
+            pair, rel = stack.pop()
+            if (pair, rel) in seen:
+                continue
+            seen.add((pair, rel))
+            c1, c2 = sp1.get(pair[0]), sp2.get(pair[1])
+            if c1 is None or c2 is None or (c1 == () == c2):
+                continue
+            order = mi.get(pair, {}).get((c1, c2))
+            if order is None:
+                continue
+            if not finder._eq_path_matches(pair[0], pair[1], *rel, sp1, sp2, tracker):  # pylint: disable=protected-access
+                if (pair[0], pair[1], rel[0], rel[1]) not in asked:
+                    bad.append([list(pair), list(rel[:2])])
+                continue
+            for j2, (j1, ch2) in enumerate(zip(order, c2)):
+                stack.append(((c1[j1], ch2), (pair[0], pair[1], j1, j2)))
+    finally:
+        finder.rec_log = log
+    return bad
 
 
 def _mi_json(mi):
@@ -521,20 +660,21 @@ def _impl_abs(case):
         found = f._find(f._pi1.root_eq_label, f._pi2.root_eq_label, mi, set())  # pylint: disable=protected-access
         maps = f._search_matching_info(mi) if found else None  # pylint: disable=protected-access
         res["log"] = getattr(f, "rec_log", [])
+        res["log2"] = getattr(f, "rec_log2", [])
         if maps is None:
-            res["out"] = [0, [], []]
+            res["out"] = [0, [], []] + _ABS_TAIL
             return res
         keys = []
         for m, pi in zip(maps, (f._pi1, f._pi2)):  # pylint: disable=protected-access
             node = f._create_tree(m, pi.root_eq_label)  # pylint: disable=protected-access
             keys.append(sorted([k, list(v)] for k, v in node.rule_keys()))
-        res["out"] = [1, keys[0], keys[1]]
+        res["out"] = [1, keys[0], keys[1]] + _ABS_TAIL
         res["maps"] = [sorted([k, list(v)] for k, v in m.items()) for m in maps]
         res["mi"] = _mi_json(mi)
         res["nlabels"] = [len(keys[0]), len(keys[1])]
         return res
     except Exception as e:  # pylint: disable=broad-except
-        res["out"] = _exc_out(e)
+        res["out"] = [_exc_code(e), [], []] + _ABS_TAIL
         res["find_exception"] = "%s: %s" % (type(e).__name__, str(e)[:80])
         res["trace"] = traceback.format_exc()[-1800:]
         res["log"] = getattr(f, "rec_log", [])
@@ -543,30 +683,37 @@ def _impl_abs(case):
         B.EquivalenceRuleExtractor = real
 
 
+_ABS_TAIL = [9, [], 9, []]
+
+
 def impl(case):
-    from comb_spec_searcher.bijection import ParallelSpecFinder
+    from comb_spec_searcher.bijection import EqPathParallelSpecFinder
 
     res = _impl_abs(case) if case["kind"] == "abs" else _impl_real(case)
-    # the proposed repair of the second search (findings/second_search_shortcut.diff) adds this method;
-    # the model has both forms of the code and follows the one the repository has
-    res["patched"] = hasattr(ParallelSpecFinder, "_maps_are_matched")
+    # the proposed repair of F-C13e (findings/eqpath_unvalidated_child_paths.diff) overrides this method in
+    # the EqPath class; the model has both forms of that class and follows the one the repository has
+    res["eq_patched"] = "_maps_are_matched" in EqPathParallelSpecFinder.__dict__
     return res
 
 
 def encode_with(case, res):
-    if res.get("sides") is None:
+    if res.get("out") == [9] or ("sides" not in res and "dbs" not in res):
         return [9]
-    s1, s2 = res["sides"]
-    mode = case["variant"] + (2 if res.get("patched") else 0)
-    return [mode, res["fuel"], s1, s2, [k + [int(a)] for k, a in res.get("log", [])]]
+    mode = case["variant"] * (3 if res.get("eq_patched") else 1)
+    if case["kind"] == "abs":
+        a, b = [[0, sd] for sd in res["sides"]]
+    else:
+        a, b = [[1, db, lis] for db, lis in res["dbs"]]
+    return [mode, res["fuel"], a, b, [k + [int(x)] for k, x in res.get("log", [])],
+            [k + [int(x)] for k, x in res.get("log2", [])]]
 
 
 def canon_model(mo):
-    if len(mo) != 4:
+    if len(mo) != 8:
         return mo
-    st, k1, k2, _asked = mo
-    # the cache misses of _eq_path_matches are internals: reported by both sides, not compared
-    return [st, sorted(k1), sorted(k2)]
+    st, k1, k2, _asked, c1, side1, c2, side2 = mo
+    # the cache misses of _eq_path_matches are internals: reported by the model, not compared
+    return [st, sorted(k1), sorted(k2), c1, _canon_side(side1), c2, _canon_side(side2)]
 
 
 # ===================================================================== oracle: validity of one specification
@@ -837,6 +984,12 @@ def oracle(case, res):
         tag = ""
         if unjust and not other:
             tag = " [second search accepted the assigned pair %s without matching their rules]" % (unjust[0],)
+        elif (case["kind"] != "abs" and case.get("variant") == 1 and not unjust and not other
+              and why.endswith("label maps: matched)") and res.get("bad_edges")):
+            # the label maps ARE matched; what differs are non-equivalence rules on the way into a pair of
+            # children that the search never compared under this pair of parents
+            e = res["bad_edges"][0]
+            tag = " [equivalence paths of the children %s under the parents %s were never compared]" % (e[0], e[1])
         return "the output is not a matched pair: %s%s" % (why, tag)
     if case["kind"] != "abs":
         iso = res["iso"]
@@ -859,11 +1012,14 @@ def finding_match(case, why):
         return KF_SHORTCUT
     if why.startswith("Isomorphism.check rejects the returned pair") and "[chained equivalence steps]" in why:
         return KF_CHAIN
+    if (why.startswith("the output is not a matched pair") and case.get("variant") == 1
+            and "[equivalence paths of the children" in why and "were never compared]" in why):
+        return KF_EQCHILD
     return None
 
 
 def nontrivial(case, res):
-    if res.get("sides") is None:
+    if not res.get("sides"):
         return False
     big = max(len(_labels_of(s)) for s in res["sides"]) >= 3
     return big and (res["out"][0] == 1 or res["out"][0] >= 10)
@@ -932,45 +1088,41 @@ def shrink(case):
 
 
 TECHNIQUE = (
-    "Coq proofs over an executable Gallina model of both finder variants (first search, second search, tree "
-    "construction, + the two functions of the proposed repair) and of the specification-construction stage (C02's "
-    "extractor model); refutation witnesses proved by vm_compute and replayed on the real code; the model is run "
-    "(extracted, ExtrOcamlBasic only) against the real finder on pairs of real searchers and on synthetic universes; an "
-    "independent oracle decides validity (counts, closedness, genuineness, productivity) and isomorphism (own "
-    "bisimulation, Isomorphism.check, Bijection.construct on objects) of what the real finder returns"
+    "Coq proofs over an executable Gallina model of ParallelInfo's construction of the universes, of both finder "
+    "variants (first search, second search, the final walk _maps_are_matched, tree construction; + the proposed second "
+    "walk of the EqPath variant) and of the specification-construction stage (C02's extractor model); refutation "
+    "witnesses for the pre-97589e3 code kept as history; the model is run (extracted, ExtrOcamlBasic only) against the "
+    "real code on pairs of real searchers and on synthetic universes; an independent oracle decides validity (counts, "
+    "closedness, genuineness, productivity) and isomorphism (own bisimulation, Isomorphism.check, Bijection.construct on "
+    "objects) of what the real finder returns"
 )
 LEVEL_TEXT = (
-    "The property is REFUTED for the code as it is, by theorem and on the real code: C13_matched_pair_refuted / "
-    "C13_eqpath_raises_refuted give two 4-label universes on which the model of ParallelSpecFinder returns two label "
-    "maps that are not a matched pair and the model of EqPathParallelSpecFinder reaches KeyError (the second search "
-    "accepts two already-assigned labels without matching their rules); findings/second_search_shortcut.py shows both on "
-    "real searchers with true semantics (two valid, non-isomorphic specifications; KeyError). Two further defects are "
-    "found by the oracle: AssertionError for an empty start class, and returned pairs with chained equivalence steps "
-    "that Isomorphism.check rejects. All three are listed as open known findings, matched narrowly. Proved for the code "
-    "as it is, for all universes: C13_first_search_sound (every matching_info entry is a pair of candidate rules with "
-    "matching constructor classes and a genuine permutation, or an atom entry of equal atoms), C13_failure_memo_sound "
-    "(a pair recorded as failed is not matchable; the first search answers True whenever the roots are matchable), "
-    "C13_base_finder_never_raises + C13_base_finder_total (ParallelSpecFinder's find() reaches no exception state and "
-    "both searches terminate: it answers None or two label maps), C13_maps_use_rules, C13_spec_from_label_map (the "
-    "extractor invoked with the START label on a closed label map of stored rules does not fail and yields a closed "
-    "rules dictionary containing the start label — C02's theorem; Examples for a start label that is not its "
-    "representative, and for the pre-a34d719 call). Proved for the code with the proposed repair "
-    "(findings/second_search_shortcut.diff, modelled next to the present code; the check follows whichever the repository "
-    "has): C13_matched_pair_with_repair[_eqpath] (whatever find() returns is a matched pair: closed, made of rules, "
-    "isomorphic through a relation respecting constructor classes, atoms and a permutation at every node), "
-    "C13_repaired_base_finder_total, and end to end C13_two_rule_sets_with_repair (when the repaired find() returns, "
-    "the extractor invoked with each side's START label on that side's label map does not fail and yields a closed "
-    "rules dictionary containing the start label, given that the universe is read off the rule database)."
+    "For the code as it is (fix: commits a172a92, 97589e3), for all rule databases / universes and all fuel: "
+    "C13_matched_pair, C13_matched_pair_eqpath (whatever find() returns, in either variant, is a matched pair: both label "
+    "maps closed from their roots, made of rules of their universes, isomorphic through a relation respecting "
+    "constructor classes, atoms and a permutation of the children at every node); C13_base_finder_never_raises + "
+    "C13_base_finder_total and C13_eqpath_finder_never_raises + C13_eqpath_finder_total (both find() are total at the model "
+    "level: no exception state, all searches and walks terminate; EqPath for every oracle answering all questions of "
+    "_eq_path_matches); C13_first_search_sound, C13_failure_memo_sound, C13_maps_use_rules; "
+    "C13_universe_well_formed (the universe ParallelInfo._construct_eq_label_rules builds from a rule database — incl. the "
+    "skipped empty parent — consists of stored rules up to equivalence, root = representative of the start label); "
+    "C13_spec_from_label_map (extractor invoked with the START label: closed rules dictionary with a rule for the start "
+    "label, C02's theorem; Examples for a start label that is not its representative and for the pre-a34d719 call); "
+    "C13_two_rule_sets(_eqpath): end to end from the two rule databases to two closed rule sets, no hypothesis on the "
+    "universes left. History: C13_matched_pair_refuted, C13_eqpath_raises_refuted are about the code before 97589e3 "
+    "(find_base_old / find_eq_old). Open findings, found by the oracle, outside what the label-level theorems speak "
+    "about: EqPathParallelSpecFinder does not compare the equivalence paths of the children of two already-assigned "
+    "labels (non-isomorphic specifications; proposed repair modelled as pw = true, same theorems proved for it), and "
+    "returned pairs with chained equivalence steps that Isomorphism.check rejects."
 )
 LEVEL_NOTE = (
-    "Model level: the theorems are about Parallel/Model.v, tied to bijection.py by the correspondence (0 mismatches on "
-    "every run; both finder variants; real searchers over word and regular-language universes and synthetic universes on "
-    "the real methods). Totality of the real Python code is exercised, not proved: every exception of the real finder is "
-    "an oracle failure unless it is one of three documented refusals. Not modelled: ParallelInfo (expansion, pruning, "
-    "choice of concrete rules) — the empty-start-class defect lies there; EquivalenceRuleExtractor (answers of "
-    "_eq_path_matches are replayed; no exception-freedom/termination theorem for the EqPath second search); "
-    "CombinatorialSpecification construction and Isomorphism (C12) — the chained-equivalence defect lies there. "
-    "Validity of returned specifications (C01/C02) and their isomorphism are instance verdicts of the oracle, not "
-    "universal theorems: with the present code the universal statement is false. 'Matched pair' at the label-map level "
-    "is up to equivalence labels, as the finder works; Isomorphism.check on the specifications is checked per instance."
+    "Model level: the theorems are about Parallel/Model.v + InfoModel.v, tied to bijection.py by the correspondence (0 "
+    "mismatches on every run; both finder variants; real searchers over word and regular-language universes and "
+    "synthetic universes on the real methods). Totality of the real Python code is exercised, not proved: every "
+    "exception of the real finder is an oracle failure unless it is one of three documented refusals. 'Matched pair' is "
+    "the label-map notion (up to equivalence labels, as the finder works): it does not see non-equivalence rules inside "
+    "equivalence paths — that, validity of the returned specifications (C01/C02) and Isomorphism.check / "
+    "Bijection.construct on them are instance verdicts of the oracle (the open EqPath finding lives exactly there). "
+    "Not modelled: expansion of the searchers, EquivalenceRuleExtractor (answers of _eq_path_matches replayed as a "
+    "table), CombinatorialSpecification construction and Isomorphism (C12)."
 )
